@@ -187,6 +187,29 @@ def rule_handout(ctx):
                      or (n.kind == "call" and not (unparse(n.ast.func) in ("len", "isinstance") or unparse(n.ast.func).startswith("log.")))]
             ctx.ob(R, fx, u, not risky, f"{m}: after the position moved the call can still run {[unparse(x.ast)[:50] if x.kind != 'fornext' else 'next iteration of ' + unparse(x.ast.iter)[:40] for x in risky[:3]]}; "
                                         "when that raises, the records already taken are dropped with the exception but the position is past them", text=f"{m}:nothing-after-position-moved")
+    # an exhausted iterator gives up the buffer (has_more() turns False): otherwise the entry is never removed and the partition never re-fetched
+    from ..rulekit import none_tests
+    fg1 = ctx.fn(f"{FR}.getone")
+    c1 = ctx.cfg(fg1)
+    tk = [n for n in c1.nodes if n.kind == "call" and unparse(n.ast.func) == "next" and isinstance(n.stmt, ast.Assign) and isinstance(n.stmt.targets[0], ast.Name)]
+    ok = len(tk) == 1
+    if ok:
+        nt1 = none_tests(c1, tk[0].stmt.targets[0].id)
+        drop = [x for x in c1.stores(attr="_partition_records") if const_value(getattr(x.stmt, "value", None)) is None and isinstance(x.stmt, ast.Assign)]
+        ok = len(nt1) == 1 and bool(drop) and c1.exit not in c1.reachable([m for m, l in nt1[0][0].succ if l == nt1[0][1]], avoid=set(drop), exc=False, include_src=True)
+    ctx.ob(R, fg1, fg1.node, ok, "getone: an exhausted buffer is not dropped (has_more() stays True, the partition is never fetched again)", text="getone:exhausted-drops")
+    fg2 = ctx.fn(f"{FR}.getall")
+    c2 = ctx.cfg(fg2)
+    nx = [n for n in c2.nodes if n.kind == "fornext" and unparse(n.ast.iter) == "self._partition_records"]
+    drop2 = [x for x in c2.stores(attr="_partition_records") if isinstance(x.stmt, ast.Assign) and const_value(x.stmt.value) is None]
+    ok = len(nx) == 1 and bool(drop2) and c2.exit not in c2.reachable([m for m, l in nx[0].succ if l == "F"], avoid=set(drop2), exc=False, include_src=True)
+    if not nx:
+        # the while/next() form: the arm on which next() yielded nothing
+        tk2 = [n for n in c2.nodes if n.kind == "call" and unparse(n.ast.func) == "next" and isinstance(n.stmt, ast.Assign) and isinstance(n.stmt.targets[0], ast.Name)]
+        if len(tk2) == 1:
+            nt2 = none_tests(c2, tk2[0].stmt.targets[0].id)
+            ok = len(nt2) == 1 and bool(drop2) and c2.exit not in c2.reachable([m for m, l in nt2[0][0].succ if l == nt2[0][1]], avoid=set(drop2), exc=False, include_src=True)
+    ctx.ob(R, fg2, fg2.node, ok, "getall: an exhausted buffer is not dropped (has_more() stays True, the partition is never fetched again)", text="getall:exhausted-drops")
     # getall: max_records break updates the position as well (covered by position-after-take), returns what it took
     fg = ctx.fn(f"{FR}.getall")
     cg = ctx.cfg(fg)
